@@ -56,6 +56,12 @@ def space(tier):
                       {"thread": 1, "timer": 1, "total": 1} if quick else {"thread": 2, "timer": 1, "total": 2}, cap))
         for pol in ("low", "high"):
             units.append(({"program": p, "cfg": {"env_kinds": [], "policy": pol}}, {"total": 0}, cap))
+        # histories left by a crash: the completing context and its branches are partly recorded already
+        units.append(({"program": p, "cfg": {"env_kinds": ["crash"]}},
+                      {"crash": 1, "thread": 1, "total": 1 if quick else 2}, cap))
+        if not quick or "par[first:" in p["name"] or "par[par[" in p["name"]:
+            for pol in ("low", "high"):
+                units.append(({"program": p, "cfg": {"env_kinds": ["crash"], "policy": pol}}, {"crash": 1, "total": 1}, cap))
     return units
 
 
@@ -64,4 +70,5 @@ simcheck.install(globals(), "C10", [monitors.judge_c10], space,
                  "x 10 survivor positions (inside a user function, between two operations, about to start a new step "
                  "(both semantics) / child context / map / wait / callback, inside a nested child, racing) for parallel at "
                  "top level and inside a child context, plus nesting 2 (the completing context is an inner parallel "
-                 "inside a branch); all schedules with <=1 (quick) / <=2 (thorough) deviations, policies rtb/low/high")
+                 "inside a branch); every single crash point (replays in which the completing context and its branches are "
+                 "already partly recorded); all schedules with <=1 (quick) / <=2 (thorough) deviations, policies rtb/low/high")
